@@ -456,6 +456,9 @@ func runCase(c *Case, d *driver, opts runOpts) (res caseResult) {
 				if len(im.be.script) == 0 && im.vt.Buffered() == 0 {
 					cmd += " eof"
 				}
+				if c.Mode == 1 && !(len(stepBytes) > 0 && stepBytes[0] >= 32 && stepBytes[0] != 127) {
+					gstate.control()
+				}
 				if c.Mode == 1 && len(stepBytes) > 0 && stepBytes[0] >= 32 && stepBytes[0] != 127 {
 					// grapheme mode: the model gets the run as clusters (uniseg, widths from uniseg,
 					// merge fragments classified here independently of the reader)
@@ -485,10 +488,10 @@ func runCase(c *Case, d *driver, opts runOpts) (res caseResult) {
 								k--
 							}
 							if k >= 0 && k < len(cs) && !cs[k].cont {
-								if cl := graphemeClusters(cs[k].text + gstate.firstMerge); len(cl) == 1 && cl[0].width != cs[k].width && cl[0].width > 0 {
+								if cl := graphemeClusters(cs[k].text + gstate.firstMerge); !(len(cl) == 1 && (cl[0].width == cs[k].width || cl[0].width == 0)) {
 									for _, pr := range []string{"C02", "C03", "C10"} {
 										addF(finding{Step: step, Kind: "monitor", Prop: pr, Clause: "merge-changes-width", Tags: "tm",
-											Detail: fmt.Sprintf("grapheme mode: the fragment %q arrives in a later run than its base %q; joined they measure %d cell(s) but the base was stored with %d", gstate.firstMerge, cs[k].text, cl[0].width, cs[k].width)})
+											Detail: fmt.Sprintf("grapheme mode: the fragment %q arrives in a later run than the character %q it is joined to; together they are %d cluster(s) measuring %d cell(s), the character was stored with %d", gstate.firstMerge, cs[k].text, len(cl), cl[0].width, cs[k].width)})
 									}
 									res.Cut = true
 									break
@@ -589,6 +592,18 @@ func knownFindingMonitors(pre, post *te.VerifSnap, im *impl, evFrom int, step in
 			}
 		}
 	}
+	// C03: a character written on the second cell of a wide character that occupies the last
+	// two columns is inserted beyond the right edge and lost (same root as keep-wide-run)
+	if strings.Contains(tags, "tK") {
+		act := 0
+		if pre.OnAlt {
+			act = 1
+		}
+		if s := &pre.Screens[act]; !s.Grid && s.W >= 2 && s.CX == s.W-1 {
+			*out = append(*out, finding{Step: step, Kind: "monitor", Prop: "C03", Clause: "keep-wide-run", Tags: tags,
+				Detail: "a character written on the second cell of a wide character in the last two columns (span buffer) is inserted beyond the right edge and lost instead of overwriting the last column"})
+		}
+	}
 	// C07: an SGR sequence with more parameters than the parser stores
 	if tags == "[0.109" && len(stepBytes) > 0 && stepBytes[len(stepBytes)-1] == 'm' {
 		if n := strings.Count(string(stepBytes), ";") + 1; n > 32 {
@@ -616,6 +631,21 @@ type graphemeMergeState struct {
 	forcedOdd  bool // a cluster that cannot join (not pictographic) was glued on after a lone ZWJ
 	formatChar bool // a zero-width cluster that is not an extender occurred
 	firstMerge string // the run starts with a merge fragment: its text (joins a cell written earlier)
+	lastRI     bool   // the previous run ended in an unpaired regional indicator (no control since)
+}
+
+// control: a control byte or escape sequence was processed — a dangling joiner or an unpaired
+// regional indicator no longer claims the next cluster.
+func (st *graphemeMergeState) control() { st.forceNext, st.lastRI = false, false }
+
+func isRegionalIndicators(s string) (all bool, n int) {
+	for _, r := range s {
+		if r < 0x1f1e6 || r > 0x1f1ff {
+			return false, 0
+		}
+		n++
+	}
+	return n > 0, n
 }
 
 // graphemeRunTokens tokenises one printable run into extended grapheme clusters and classifies
@@ -637,6 +667,22 @@ func graphemeRunTokens(run []byte, st *graphemeMergeState) string {
 			return len(cl.text) > 0
 		}
 		ext := true // the cluster consists of extenders only (no cell of its own by nature)
+		if ri, n := isRegionalIndicators(cl.text); ri {
+			// the second half of a flag whose first half ended the previous run joins it
+			if st.lastRI && n%2 == 1 {
+				merge = true
+				st.lastRI = false
+			} else {
+				st.lastRI = n%2 == 1
+			}
+			ext = false
+			if ci == 0 && merge {
+				st.firstMerge = cl.text
+			}
+			parts = append(parts, fmt.Sprintf("%x:%d:%d:%x", cl.text, cl.width, b2i(merge), cl.text))
+			continue
+		}
+		st.lastRI = false
 		switch {
 		case only(func(r rune) bool { return unicode.Is(unicode.Mn, r) || unicode.Is(unicode.Me, r) }):
 			merge = true
